@@ -24,9 +24,18 @@ Proof. exact key_injective_le_10. Qed.
 Theorem C18_key_collision_refuted : key 1 10 = key 11 0 /\ (1%nat, 10%nat) <> (11%nat, 0%nat).
 Proof. exact key_collision_12. Qed.
 
+(* ---- principal stresses: the closed form of the eigenvalues of the symmetric tensor [[a, b], [b, c]] (compared with numpy's eig by the harness) *)
+Theorem C18_principal_are_eigenvalues : forall a b c : R, let '(l1, l2) := principal ROps (a, b, c) in
+  ((a - l1) * (c - l1) - b * b = 0 /\ (a - l2) * (c - l2) - b * b = 0 /\ l2 <= l1 /\ l1 + l2 = a + c /\ l1 * l2 = a * c - b * b)%R.
+Proof. exact principal_are_eigenvalues. Qed.
+Theorem C18_principal_isotropic : forall p : R, principal ROps (- p, 0, - p)%R = (- p, - p)%R.
+Proof. exact principal_isotropic. Qed.
+
 Print Assumptions C18_sigma_zero_when_empty.
 Print Assumptions C18_sigma_zero_area.
 Print Assumptions C18_sigma_linear.
 Print Assumptions C18_sigma_isotropic.
 Print Assumptions C18_key_injective_le_10.
 Print Assumptions C18_key_collision_refuted.
+Print Assumptions C18_principal_are_eigenvalues.
+Print Assumptions C18_principal_isotropic.
